@@ -5,6 +5,19 @@ CLAIMED = {
             'normalisation idempotent and equal to a reference normaliser; COMMENT ON literal and expression pass-through read back '
             'by an independent DDL reader. Decided for ALL code points of the class at once by the solver, bounded by K.',
             'DESIGN.md 6/C13', 'Four open findings (regions) are excluded while their witnesses fail: see known_findings.json.'),
+    'C09': ('All histories of D container operations (add / delete / typed add_* / rename, table-level add/delete of columns and indexes) '
+            'from five operation menus over a universe with engineered name, alias, enum, group and reference clashes; an independent '
+            'list-based reference model is compared after EVERY step (membership, order, name/alias lookup, back-pointers, rejected '
+            'operations leave no trace). Path tree exhausted by CrossHair, z3 deciding feasibility of each operation-code branch.',
+            'DESIGN.md 6/C09', 'Open finding c09_rename_contained_table excludes histories from the first rename of a contained table on.'),
+    'C17': ('25 inconsistency cases (element kind x missing attribute / detached or mixed reference endpoints x route .sql/.dbml/.table1/'
+            '.get_refs) after a symbolic prefix of legal edits, with symbolic names: the documented exception class and nothing else.',
+            'DESIGN.md 6/C17', ''),
+    'C18': ('Every acyclic inline-reference graph over n tables (symbolic adjacency booleans) x every insertion order x reference kind: '
+            'CREATE TABLE statements read back by the DDL reader are a permutation of the tables, rendering is deterministic, the FOREIGN '
+            'KEY clause sits in its key holder, and the target precedes the holder.',
+            'DESIGN.md 6/C18', 'Open finding c18_counting_heuristic: the ordering clause is only asserted where the counting heuristic '
+            'of the unchanged tree promises it (target holds more counted inline refs, or as many and was added earlier).'),
 }
 _PENDING = 'check under construction in this session (harness not yet committed); not claimed until it runs clean on the unchanged tree'
 NOT_APPLICABLE = {f'C{i:02d}': _PENDING for i in range(1, 19) if f'C{i:02d}' not in CLAIMED}
